@@ -2,7 +2,7 @@ SPECIFICATION GenSpec
 CONSTANTS
   Configs <- CfgsMix
   Heads <- HeadsOps
-  Levels <- LevelsA
+  Levels <- LevelsB
   Calls <- CallsB
   TextBytes = {2, 97}
   MaxText = 1
